@@ -142,20 +142,39 @@ func (b *serviceBackend) close() { b.st.Close() }
 // validated=false on a real world state; thresholds live in the chain state
 // (genesis timestampThreshold, changed by governance calls).
 func serviceCase(c *ev.Ctx, r *rand.Rand) {
+	// two scales: thresholds of 1..6 ms (many evictions in few blocks) and
+	// thresholds of minutes at real microsecond timestamps: the chain value is
+	// then LARGER than the constant patch-group threshold (1 min), so a
+	// mix-up of the two groups' thresholds narrows what the trackers / the
+	// locator cache believe a block can hold; also the default (unset = 5 min)
+	minutes := r.Intn(2) == 0
+	K := int64(1000)
 	th0ms := int64(1 + r.Intn(6))
+	th0 := th0ms * K
+	if minutes {
+		K = 60 * 1000000
+		if r.Intn(4) == 0 {
+			th0ms, th0 = 0, 5*K // not configured: service default
+		} else {
+			th0ms = int64(2+r.Intn(4)) * 60000
+			th0 = th0ms * 1000
+		}
+	}
 	be, err := newServiceBackend(c, th0ms)
 	if err != nil {
 		c.Violation("service.setup", err.Error())
 		return
 	}
 	defer be.close()
-	const K = 1000
-	th0 := th0ms * K
 	s := &scen{c: c, r: r, be: be, K: K, varying: r.Intn(100) < 50, th0: th0}
 	// the setup blocks (genesis ...) are the finalized root of the model
 	root := &node{height: be.st.Base.Height, bts: be.st.Base.TS, th: th0, ids: map[string]*mtx{}, finalized: true}
 	root.impl = &nodeImpl{real: be.st.Base, thNext: th0}
 	bts := int64(1000000 + r.Intn(1000000))
+	if minutes {
+		bts = 1700000000000000 + r.Int63n(1000000000000)
+		c.Count("service_trees_minute_thresholds", 1)
+	}
 	ok, _, et, impl := be.try(root, root.height+1, bts, th0, th0, nil)
 	if !ok {
 		c.Violation("service.valid.rejected.empty-first-block", et)
